@@ -2095,6 +2095,19 @@ func checkC17(c *Ctx) {
 			// the old target stays in place: the rename onto ..data is the only event of the swap that passes the filter
 			Ops: []c17Op{{Mech: "swapkeep", What: "new", Content: "K=" + id + ".1:;", Valid: true}, {Mech: "inplace", What: "new", Content: "K=" + id + ".2:;", Valid: true}}})
 	}
+	// deterministic interaction histories: a ..data swap to a generation with IDENTICAL bytes (no new version - but the
+	// loop must still follow the symlink to the new directory), then an in-place rewrite of the file the path now
+	// resolves to: seen only if the watch moved with the swap
+	for i, mech := range []string{"swap", "swapkeep", "swap"} {
+		for _, mode := range []string{"step", "free", "e2e"} {
+			id := fmt.Sprintf("%s%d", mode[:1], 900000+i)
+			rr := r.Fork()
+			c0 := c17GenContent(rr, id, 0, "new", mode == "e2e")
+			c1 := c17GenContent(rr, id, 1, "new", mode == "e2e")
+			hs = append(hs, c17Hist{ID: id, Mode: mode, Layout: "k8s", Init: c0, InitValid: true,
+				Ops: []c17Op{{Mech: mech, What: "same", Content: c0, Valid: true, PauseUS: c17Pauses[i%3]}, {Mech: "inplace", What: "new", Content: c1, Valid: true, PauseUS: c17Pauses[(i+1)%3]}}})
+		}
+	}
 	// overflow regression stream (slow: tens of thousands of file system events per history)
 	nOvf := c.scale(4, 16)
 	if c.Search {
@@ -2200,6 +2213,9 @@ func c17Order(id string) int {
 		return 0 // the slow deterministic streams start first and overlap with the rest
 	}
 	n, _ := strconv.Atoi(id[1:])
+	if n >= 900000 {
+		return 0 // the deterministic interaction histories run first as well
+	}
 	return n*4 + strings.Index("fse", id[:1]) + 1
 }
 
